@@ -1,4 +1,5 @@
 //! C09-a: connection id recycling on the real `conn_id::Inner` (compiled as `conn_id_real`).
+#![cfg(any(verif_unit = "all", verif_unit = "conn_id", verif_unit = "conn_id_t"))]
 #![allow(dead_code, unused_imports, missing_debug_implementations, missing_docs, unreachable_pub, unnameable_types)]
 use super::Inner;
 
@@ -79,7 +80,8 @@ fn release_one<const K: usize>() {
 }
 
 macro_rules! inst {
-    ($($name:ident = $f:ident::<$k:literal>;)*) => {$(
+    ($($(#[$m:meta])* $name:ident = $f:ident::<$k:literal>;)*) => {$(
+        $(#[$m])*
         #[kani::proof]
         #[kani::unwind(6)]
         fn $name() {
@@ -92,8 +94,10 @@ inst! {
     q_c09_conn_id_acquire_free0 = acquire_fresh::<0>;
     q_c09_conn_id_acquire_free1 = acquire_fresh::<1>;
     q_c09_conn_id_acquire_free3 = acquire_fresh::<3>;
+    #[cfg(any(verif_unit = "all", verif_unit = "conn_id_t"))]
     t_c09_conn_id_acquire_free2 = acquire_fresh::<2>;
     q_c09_conn_id_release_free0 = release_one::<0>;
     q_c09_conn_id_release_free2 = release_one::<2>;
+    #[cfg(any(verif_unit = "all", verif_unit = "conn_id_t"))]
     t_c09_conn_id_release_free1 = release_one::<1>;
 }
